@@ -274,6 +274,26 @@ def run(rep: Report, tier: str) -> None:
                                         f"the parameter stands for {unit}"))
     rep.floor("macro call sites", ncalls, 35)
     rep.analysed = {"sql_limits": sql_limits, "python_limits": py_limits, "shift_cells": ncell, "macro_calls": ncalls}
+    iso_year_rule(rep, macros, "R08.5")
     rep.assumptions = ["DuckDB integer semantics: `//` truncates toward zero, `%` keeps the sign of the dividend (checked once against the "
                        "installed DuckDB while writing the rule; not executed by the check)",
                        "calendar facts: ISO years have 52 or 53 weeks, years 365 or 366 days"]
+
+
+def iso_year_rule(rep: Report, macros, rule: str, only=None) -> None:
+    """An expression that writes a week period from a date takes the year from ISOYEAR, not YEAR (shared with C09)."""
+    rep.rule(rule, "an expression that writes a week period from a date takes the year from ISOYEAR, not YEAR")
+    nweek = 0
+    for mname, mac in sorted(macros.items()):
+        if only is not None and mname not in only:
+            continue
+        body = mac.body
+        for mm in re.finditer(r"(?is)'-?W'\s*\|\|[^;]*?\b(WEEKOFYEAR|WEEK)\s*\(", body):
+            nweek += 1
+            seg = body[max(0, body.rfind("THEN", 0, mm.start(1))):mm.end(1)]
+            rep.instance(rule, f"week-period/{mname}", nontrivial=True, sample=seg[-120:].replace("\n", " "))
+            if not re.search(r"(?i)\bISOYEAR\s*\(", seg):
+                rep.add(Finding(rule, f"{rule}/week-period/{mname}", mac.file, mac.line + body.count("\n", 0, mm.start(1)), f"macro:{mname}",
+                                f"{mname} writes a week period (…'W' || {mm.group(1)}(d)) without taking the year from ISOYEAR(d): ISO week numbers belong to the ISO year, which differs "
+                                f"from the calendar year for the days around New Year (2021-01-01 is 2020-W53, 2019-12-30 is 2020-W01), so those dates get a non-existent or wrong period"))
+    rep.floor(f"{rule} week-period expressions", nweek, 1 if only else 2)
